@@ -23,10 +23,14 @@ for l in lines:
 open("coq/_CoqProject", "w").write("\n".join(out) + "\n")
 ours = json.loads(sh("git", "show", "HEAD:known_findings.json"))
 theirs = json.loads(sh("git", "show", f"{branch}:known_findings.json"))
-keys = {(f["property"], f["signature"]) for f in ours["findings"]}
+keys = {(f["property"], f["signature"]): i for i, f in enumerate(ours["findings"])}
+own = branch.upper()
 for f in theirs["findings"]:
-    if (f["property"], f["signature"]) not in keys:
+    k = (f["property"], f["signature"])
+    if k not in keys:
         ours["findings"].append(f)
+    elif f["property"] == own:
+        ours["findings"][keys[k]] = f      # the branch is authoritative for its own property
 json.dump(ours, open("known_findings.json", "w"), indent=1)
 subprocess.run(["git", "checkout", "--ours", "MANIFEST.json"], check=False)
 subprocess.run([sys.executable, "tools/gen_manifest.py"], check=True)
